@@ -63,9 +63,9 @@ def run {F} (d : Bytes → Step F) (chunks : List Bytes) : Conn F :=
 
 /-! ### header/body shape shared by all envelope decoders
 
-Every xprotocol `Decode` has the same shape: a header stage that looks at a bounded prefix and answers
-"need more" / "error" / "the frame is `n` bytes long", a length test `len(buf) < n ⇒ need more`, and a body stage that
-only looks at the `n` frame bytes.  `envelope` is that shape; `HdrStable` is what the header stage must satisfy. -/
+Every xprotocol `Decode` has the same shape: a header stage that looks at a bounded prefix and the buffered length
+and answers "need more" / "error" / "the frame is `n` bytes long and complete", and a body stage that only looks at
+the `n` frame bytes.  `envelope` is that shape; `HdrStable` is what the header stage must satisfy. -/
 
 inductive Hdr where
   | needMore : Hdr
@@ -74,16 +74,16 @@ inductive Hdr where
 deriving Repr, DecidableEq
 
 structure HdrStable (h : Bytes → Hdr) : Prop where
-  pos    : ∀ p n, h p = .len n → 0 < n
+  pos    : ∀ p n, h p = .len n → 0 < n ∧ n ≤ p.length
   ext    : ∀ p n e, h p = .len n → h (p ++ e) = .len n
   errExt : ∀ p e, h p = .error → h (p ++ e) = .error
 
-/-- `short` is the regenerated length test (`bytesLen < frameLen`, `!(data.Len() >= frameLen)`, …); `ok` classifies the
+/-- `h` contains the (regenerated) length tests: it answers `len n` only when `n` bytes are buffered; `ok` classifies the
 complete frame bytes (KV block, black-box payload parsers as an oracle). -/
-def envelope (h : Bytes → Hdr) (short : Nat → Nat → Bool) (ok : Bytes → Bool) (b : Bytes) : Step Bytes :=
+def envelope (h : Bytes → Hdr) (ok : Bytes → Bool) (b : Bytes) : Step Bytes :=
   match h b with
   | .needMore => .needMore
   | .error => .error
-  | .len n => if short b.length n then .needMore else if ok (b.take n) then .frame (b.take n) n else .error
+  | .len n => if ok (b.take n) then .frame (b.take n) n else .error
 
 end MosnVerif.Model.Framing
